@@ -3,8 +3,8 @@
 EXTENDS Quantile, TLC, Json
 VARIABLE c
 Init == c = 0
-Next == /\ c < Len(QTable) /\ c' = c + 1
-        /\ PrintT(<<"CASE", ToJson([id |-> QTable[c'].id, fam |-> QTable[c'].fam, params |-> QTable[c'].params,
-                                     xs |-> [k \in 1..Len(QTable[c'].anchors) |-> QTable[c'].anchors[k].x]])>>)
+Next == /\ c < Len(QT) /\ c' = c + 1
+        /\ PrintT(<<"CASE", ToJson([id |-> QT[c'].id, fam |-> QT[c'].fam, params |-> QT[c'].params,
+                                     xs |-> [k \in 1..Len(QT[c'].anchors) |-> QT[c'].anchors[k].x]])>>)
 Spec == Init /\ [][Next]_c
 =============================================================================
